@@ -29,6 +29,7 @@ type ShapeFinding struct {
 	OK     bool
 	Detail string
 	At     ssa.Instruction
+	Tag    string // optional sub-construct name (stable key part)
 }
 
 type ShapeResult struct {
